@@ -107,6 +107,18 @@ def perturbations(spec0, steps):
                 m2 = list(mj)
                 m2[2] = S.pk_field(m)['name']
                 yield repl(m2, 'delete-primary-key')
+        if len(mj) > 1 and isinstance(mj[1], str):
+            m = S.get_model(spec0, label, mj[1])
+            pk = S.pk_field(m) if m else None
+            if pk is not None and pk['name'] != 'id':
+                # the primary key is deleted and added again (same
+                # definition) next to the real change: the simulation ends at
+                # the current models, only the deletion itself is invalid
+                ins = [(label, ['DeleteField', mj[1], pk['name']]),
+                       (label, ['AddField', mj[1], pk['name'], pk['type'],
+                                dict(pk['attrs']), 'k'])]
+                yield ('delete-and-re-add-primary-key', i,
+                       steps[:i] + ins + steps[i:])
 
 
 def reference_verdict(spec0, target, steps):
@@ -128,6 +140,8 @@ EVOLUTION_MARKERS = (
     'must be specified', 'needs to be specified', 'cannot be',
     'not supported', 'does not support', 'is not a valid',
     'The application', 'The model', 'The field', 'Error applying',
+    # django_evolution.errors.MissingSignatureError
+    'Unable to find a model signature', 'Unable to find an app signature',
 )
 
 
@@ -239,7 +253,18 @@ def tasks_for(tier):
             tasks.append(('%s#%d' % (name, i), start, steps))
     narrow = c03.narrow_start()
     two = c03.two_model_start()
+    # explicit primary key whose column name differs from the field name
+    from vf.spec import F, M, A, P
+    pkstart = P(A('va', [M('Item', [
+        F('code', 'Char', primary_key=True, max_length=10,
+          db_column='isbn'),
+        F('a', 'Char', max_length=20), F('b', 'Int', null=True)])]))
+    add('explicit-pk-d1', pkstart, 1, 'lite', KINDS)
     if tier == 'quick':
+        # an evolution that also deletes a model (the residual difference of
+        # a dropped DeleteModel is a model that only the simulation has)
+        add('two-model-delmodel-d2', two, 2, 'lite', ('AddField',
+                                                      'DeleteModel'))
         add('narrow-d2', narrow, 2, 'lite', KINDS)
         add('narrow-full-d1', narrow, 1, 'full', KINDS)
         add('two-model-d1', two, 1, 'full', KINDS + ('DeleteModel',))
